@@ -26,7 +26,7 @@ PROFILES = {}
 def profile(name, **kw):
     base = dict(
         classes=("MG", "SMG", "CRG", "SCRG"), max_atoms=(3, 9), steps=(30, 90),
-        callers=(1, 3), small=False, check_all_every=8, nontarget=False,
+        callers=(1, 3), small=False, check_all_every=16, nontarget=True,
         tx=dict(edit=6, query=3, derive_edit=0, relabel=0, twin=0, pair=0, mutant=0,
                 enum=0, enant=0, react=0, persist=0, algebra=0, faults=0, flip=0,
                 isomers=0, symnum=0, build=1),
@@ -238,8 +238,9 @@ class Gen:
         """descriptor whose ligands need not be neighbours (or atoms at all)"""
         rng = self.rng
         pool = m.sorted_atoms()
-        if dangling or len(pool) < 7:
-            pool = pool + [self.absent_atom(m) + i for i in range(7)]
+        if dangling or len(pool) < 9:
+            base = max(list(m.atoms) + self.cfg["ids"]) + 1
+            pool = pool + [base + i for i in range(9)]
         if atom_centred:
             c = rng.choice(geom.ATOM_CLASSES)
             centre = self.present_atom(m) if centre_present and m.atoms else self.absent_atom(m)
@@ -259,6 +260,8 @@ class Gen:
     # one random well-formed-ish mutator on slot s
     def rand_mutator(self, s):
         rng = self.rng
+        if self.w.graph(s) is None:
+            return dict(k="q", s=s, q="len")
         m = self.w.slots[s].model
         faulty = rng.random() < self.cfg["fault_rate"]
         choices = ["add_atom"] * 3 + ["add_bond"] * 4 + ["remove_atom", "remove_bond",
@@ -392,6 +395,12 @@ class Gen:
             else:
                 return None
         centre = geom.centre(first)
+        if k == "set_bchange" and centre in m.bonds and rng.random() < 0.9:
+            # roles that exist on the bond's side of the reaction
+            br = m.bonds[centre].get("reaction")
+            allowed = {None: ROLES, "BROKEN": ("BROKEN", "FLEETING"), "FORMED": ("FORMED", "FLEETING"),
+                       "FLEETING": ("FLEETING",)}.get(br, ROLES)
+            roles = [r for r in roles if r in allowed] or [rng.choice(allowed)]
         for i, r in enumerate(roles):
             if i == 0:
                 d = first
@@ -519,6 +528,8 @@ class Gen:
 
     def rand_query(self, s):
         rng = self.rng
+        if self.w.graph(s) is None:
+            return dict(k="q", s=s, q="len")
         m = self.w.slots[s].model
         if rng.random() < 0.35:
             return rng.choice(self.lookup_catalogue(s, m))
@@ -893,6 +904,9 @@ class Gen:
             same = [x for x in c if x != g1 and self.w.slots[x].model.kind == m1.kind]
             if same:
                 g2 = rng.choice(same)
+        if self.w.graph(g1) is None or self.w.graph(g2) is None:
+            return
+        m1 = self.w.slots[g1].model
         m2 = self.w.slots[g2].model
         stereo = m1.is_stereo and m2.is_stereo and rng.random() < 0.7
         changes = stereo and m1.has_changes and m2.has_changes and rng.random() < 0.7
@@ -1089,10 +1103,10 @@ class Gen:
         yield dict(k="serialize", src=s, dst=t, reencode=rng.choice((None, None, "sort", "indent", "compact")))
         if t not in self.w.slots:
             return
-        lost = rng.random() < 0.5 and not self.w.slots[s].locks
-        if lost:
+        alive = self.w.graph(s) is not None and not self.w.slots[s].locks
+        if alive and rng.random() < 0.5:
             yield dict(k="drop", s=s)        # loss of the object; durable text survives
-        elif rng.random() < 0.5 and not self.w.slots[s].locks:
+        elif alive and rng.random() < 0.5:
             yield self.rand_mutator(s)       # the original moves on
         d = self.slot_id()
         yield dict(k="deserialize", src=t, dst=d)
